@@ -420,11 +420,52 @@ func explore(r *ev.Run, be backend, keys []string, values []string, depthAll, de
 	}
 }
 
+// atomicity: a Mutate that fails in the middle (its LAST mutation names a table the store does not
+// have, which makes the real RocksDBStore.Mutate panic while it assembles the batch) must leave no
+// trace: for every batch size, none of the earlier mutations of that call may be visible afterwards.
+func atomicity(r *ev.Run) {
+	for _, n := range []int{2, 3, 50, 300, 4095, 4096, 4097, 5000, 9000, 20000} {
+		be := rocksBE{}
+		s, err := be.open()
+		if err != nil {
+			panic(err)
+		}
+		var muts []*storage.Mutation
+		for i := 0; i < n-1; i++ {
+			k := []byte(fmt.Sprintf("k%06d", i))
+			muts = append(muts, storage.NewMutation(tables[i%4], k, []byte("v")))
+		}
+		muts = append(muts, storage.NewMutation(storage.Table(99), []byte("bad"), []byte("v")))
+		pn, _ := ev.Catch(func() { err = s.Mutate(muts, []byte("meta")) })
+		r.Eval(1)
+		hist := []Batch{{Mut{0, fmt.Sprintf("%d mutations, the last one to an unknown table", n), ""}}}
+		if !pn && err == nil {
+			r.Violation("rocks: Mutate accepts a mutation for a table that does not exist", caseDesc{"rocks", hist, "Mutate", false})
+		}
+		visible := 0
+		for i := 0; i < n-1; i++ {
+			if _, err := s.Get(tables[i%4], []byte(fmt.Sprintf("k%06d", i))); err == nil {
+				visible++
+			}
+		}
+		for t := range tables {
+			if _, err := s.GetLast(tables[t]); err == nil {
+				visible++
+			}
+		}
+		if visible > 0 {
+			r.Violation("rocks: a Mutate call that fails part-way leaves some of its mutations visible (batch not atomic)", caseDesc{"rocks", hist, fmt.Sprintf("%d of %d mutations visible", visible, n-1), false})
+		}
+		r.Distinct(fmt.Sprintf("atomic %d", n))
+		be.cleanup(s)
+	}
+}
+
 func TestC14(t *testing.T) {
 	r := ev.Begin("C14")
 	r.Rule("explicit-state search over store contents: transitions = real Mutate calls (one mutation; two-mutation batches as first transition) over 4 tables x crafted keys (empty, 00, ff, ff*10, ff*11, a) x values (x, y, empty); all sequences without de-duplication up to depth_all, de-duplicated on contents beyond; after every transition Get of every key, GetRange over all key pairs, GetAll with reader buffers 1/2/100 and GetLast on every table are compared with a map model; RocksDB additionally after close+reopen; distinct = distinct (back-end, contents) states")
 	r.Assume("google/btree and librocksdb themselves are trusted; de-duplication on contents assumes a store's answers depend on its contents only, which the no-dedup levels check directly",
-		"visibility of a batch to a concurrent reader is not explored here (B+ store is unsynchronised by design and used only in tests; RocksDB's WriteBatch atomicity is trusted base)")
+		"all-or-nothing is checked for RocksDB by making a Mutate of 2..20000 mutations fail at its last mutation; visibility of a half-applied batch to a *concurrent* reader is not explored (B+ store is unsynchronised by design and used only in tests; RocksDB's WriteBatch atomicity is trusted base)")
 	if r.Replay != "" {
 		var rd struct {
 			Detail caseDesc `json:"detail"`
@@ -449,9 +490,11 @@ func TestC14(t *testing.T) {
 	keys := []string{"", "00", "ff", "ffffffffffffffffffff", "ffffffffffffffffffffff", "61"}
 	values := []string{"x", "y", ""}
 	if r.Thorough() {
+		atomicity(r)
 		explore(r, bplusBE{}, keys, values, 2, 4, 2)
 		explore(r, rocksBE{}, keys, values, 2, 3, 1)
 	} else {
+		atomicity(r)
 		explore(r, bplusBE{}, keys, values, 2, 3, 2)
 		explore(r, rocksBE{}, []string{"", "ff", "ffffffffffffffffffff", "ffffffffffffffffffffff"}, []string{"x", ""}, 1, 2, 1)
 	}
